@@ -145,6 +145,13 @@ def main_wrapper(pid, fn, tier, level="exploration"):
         traceback.print_exc()
         print("INCONCLUSIVE property=%s: harness exception" % pid)
         rc = 3
+        if chk.violations:
+            # violations observed before the harness failed are still reported
+            chk.inconc("harness exception after violations were observed")
+            try:
+                rc = chk.finish()
+            except Exception:
+                traceback.print_exc()
     finally:
         b.cleanup()
     return rc
